@@ -3,6 +3,7 @@
 From Verif Require Export Base.Prelude Base.StrUtil Base.Index Base.NdArr Base.PyRange Base.StrSeq
   Model.MapSpec Model.MapSpecSpec Model.MapRun Model.MapDenote Model.SymBody Model.MapResume Model.FixedSpec.
 
+
 Record req := { q_funcs : list mfunc; q_inputs : env; q_internal : shape_dict }.
 
 Inductive case :=
@@ -157,7 +158,9 @@ Definition run (c : case) : sx :=
       end
   | CLearners q split order rev_points => run_learners_case q split order rev_points
   | CRange n => run_range n
-  | CLink q => SB (sx_eqb (obs_map_run q) (obs_map_run_sel q))
+  | CLink q => SB (sx_eqb (obs_map_run q) (obs_map_run_sel q)
+                  (* and the order conditions of the link theorem hold for the request *)
+                  && (negb (request_ok (q_funcs q) (q_inputs q)) || pipeline_order_ok (q_funcs q)))
   end.
 
 (* ------------------------------------------------------------------ the executable statement *)
